@@ -53,6 +53,8 @@ type LibBody struct {
 	// that many bytes of replies (0 = never): requests already executed lose their replies, the
 	// library reconnects on its own
 	CutBytes []int `json:"cut_bytes,omitempty"`
+	// ExpriedS: the expiry every acquisition asks for (0 = 120 s)
+	ExpriedS int `json:"expried_s,omitempty"`
 }
 
 func genClientLib(prop string, seed uint64, tier string) *Scenario {
@@ -157,6 +159,27 @@ func genClientLib(prop string, seed uint64, tier string) *Scenario {
 		}
 		if body.TimeoutS > 3 {
 			body.TimeoutS = lh.Intn(4)
+		}
+	}
+	if qh := ssched.Sub(seed, "queuehold"); body.Primitive != "event" && len(body.CutBytes) == 0 && !body.Replset && body.Workers[0].HoldMs[0] < 30000 && qh.Intn(8) == 0 {
+		// queue-then-hold profile (drawn from a generator of its own): a short expiry, every worker
+		// keeps what it acquired for almost that long, and they all arrive together: whoever had to
+		// queue for seconds must still get the whole term it asked for, counted from its admission
+		body.ExpriedS, body.TimeoutS = 4+qh.Intn(3), 60
+		if len(body.Workers) > 5 {
+			body.Workers = body.Workers[:3+qh.Intn(3)]
+		}
+		if body.N > 2 {
+			body.N = 1 + qh.Intn(2)
+		}
+		for g := range body.Workers {
+			wk := &body.Workers[g]
+			wk.StartMs, wk.Rounds, wk.Depth = qh.Intn(400), 1+qh.Intn(2), 1
+			wk.HoldMs, wk.GapMs = nil, nil
+			for i := 0; i < wk.Rounds; i++ {
+				wk.HoldMs = append(wk.HoldMs, body.ExpriedS*1000-300-qh.Intn(600))
+				wk.GapMs = append(wk.GapMs, qh.Intn(200))
+			}
 		}
 	}
 	for g := range body.Workers {
@@ -291,6 +314,10 @@ func runClientLib(w *World) {
 			}
 		}
 		to, ex := uint32(body.TimeoutS), uint32(120)
+		if body.ExpriedS > 0 {
+			ex = uint32(body.ExpriedS)
+			w.probe("queue_then_hold_runs")
+		}
 		n := uint16(body.N)
 		fin := 0
 		if body.Primitive == "event" && body.DefaultSet {
